@@ -106,7 +106,7 @@ def _match(missing: dict[str, Any], new: dict[str, Any], score, threshold: float
             s = score(ov, nv)
             if s >= threshold:
                 # equal shapes (twin helpers such as _set_start_/_set_finish_connect_future) are told apart by name
-                s += 0.1 * difflib.SequenceMatcher(None, o, n).ratio()
+                s += 0.3 * difflib.SequenceMatcher(None, o, n).ratio()
                 pairs.append((s, o, n))
     pairs.sort(reverse=True)
     used_o: set[str] = set()
@@ -616,6 +616,35 @@ def hoist_walrus(tree: ast.Module, log: list[str]) -> None:
     ast.fix_missing_locations(tree)
 
 
+# ------------------------------------------------------------------ N8 `if TYPE_CHECKING:` blocks inside functions
+def drop_type_checking(tree: ast.Module) -> int:
+    """`if TYPE_CHECKING: assert ...` inside a function body is never executed: remove it."""
+    count = 0
+
+    def process(body: list[ast.stmt]) -> list[ast.stmt]:
+        nonlocal count
+        out: list[ast.stmt] = []
+        for st in body:
+            for fld in ("body", "orelse", "finalbody"):
+                b = getattr(st, fld, None)
+                if isinstance(b, list) and b and isinstance(b[0], ast.stmt):
+                    nb = process(b)
+                    setattr(st, fld, nb if nb or fld != "body" else [ast.Pass()])
+            for h in getattr(st, "handlers", []) or []:
+                h.body = process(h.body) or [ast.Pass()]
+            if isinstance(st, ast.If) and isinstance(st.test, (ast.Name, ast.Attribute)) and (getattr(st.test, "id", None) == "TYPE_CHECKING" or getattr(st.test, "attr", None) == "TYPE_CHECKING"):
+                count += 1
+                out.extend(st.orelse)
+                continue
+            out.append(st)
+        return out
+
+    for n in ast.walk(tree):
+        if isinstance(n, FuncDef):
+            n.body = process(n.body) or [ast.Pass()]
+    return count
+
+
 # ------------------------------------------------------------------ N5 extend(literal) -> appends
 def expand_extend(tree: ast.Module) -> int:
     """`xs.extend((a, b, c))` with a literal tuple/list argument  ->  `xs.append(a); xs.append(b); xs.append(c)`."""
@@ -719,6 +748,7 @@ def normalize_trees(trees: dict[str, ast.Module]) -> dict[str, Any]:
         hoist_walrus(t, wl)
     report["walrus"] = len(wl)
     report["extend"] = sum(expand_extend(t) for t in trees.values())
+    report["type_checking_blocks"] = sum(drop_type_checking(t) for t in trees.values())
     for t in trees.values():
         ast.fix_missing_locations(t)
     return report
